@@ -1,5 +1,6 @@
 import TinsModel.Follower.Model
 import TinsModel.Tcp.Spec
+import TinsModel.Ack.Spec
 /-
   Specification side of property C07, written from the property text (not from libtins):
 
@@ -19,7 +20,14 @@ import TinsModel.Tcp.Spec
        limits    – BUFFERED_DATA termination iff the counters shown with it exceed a limit; a connection that stays
                    live is within both limits and its byte counter equals the bytes really held;
        timeout   – a TIMEOUT is reported only for a live connection idle for at least the keep-alive, once; with
-                   non-decreasing timestamps no connection stays live once idle for two keep-alive periods.
+                   non-decreasing timestamps no connection stays live once idle for two keep-alive periods;
+       sacklimit – SACKED_SEGMENTS termination iff the connection is within both buffering limits and the SACKed-interval
+                   count shown with it exceeds the limit; a connection that stays live holds at most that many intervals;
+       acktrack  – a flow without ACK tracking records no interval; a flow with ACK tracking shows, from the segment that
+                   completes its direction's handshake on and for as long as the acknowledgements it carries are what a
+                   receiver emits (C19's `pktOK`), the cumulative ACK and exactly the maximal runs of SACKed positions
+                   above it (C19's `stateVerdict`, the set-of-acknowledged-bytes definition);
+       exception – no exception leaves `process_packet` (every callback is installed).
 -/
 namespace Tins.SF
 open Tins Tins.DT
@@ -65,8 +73,17 @@ inductive ObsEv
   | data (sid : Sid) (client : Bool) (len hash : Nat)
   | ooo (sid : Sid) (client : Bool)
   | closed (sid : Sid)
-  | term (sid : Sid) (r : Reason) (chunks bytes : Nat)
+  | term (sid : Sid) (r : Reason) (chunks bytes sacked : Nat)
+  | exc (name : String)
 deriving DecidableEq, Repr
+
+/-- observed ACK-tracker state of one flow -/
+structure ObsAck where
+  tracking : Bool := false
+  ack : Nat := 0
+  ivn : Nat := 0
+  ivs : Option (List (Nat × Nat)) := none     -- `none`: not shown / not parsed
+deriving Repr
 
 /-- observed counters of a live stream -/
 structure ObsStatus where
@@ -76,6 +93,8 @@ structure ObsStatus where
   cb : Nat
   sb : Nat
   real : Nat
+  cak : ObsAck := {}
+  sak : ObsAck := {}
 deriving Repr
 
 /-- one direction of a reference connection -/
@@ -86,6 +105,13 @@ structure RDir where
   segs : List Seg := []          -- arrivals in this direction, offsets relative to `base`
   delivered : Nat := 0           -- bytes handed over so far
   specified : Bool := true       -- all data so far is consistent with the declared stream
+  -- what an observer of this direction's acknowledgements knows (positions are absolute: numbers at or above the first
+  -- acknowledgement number, whose own value is its 32-bit image)
+  akPhase : Nat := 0             -- 0 nothing seen, 1 the direction's SYN seen, 2 handshake complete: `akA`, `akSeen` valid
+  akA : Nat := 0                 -- cumulative ACK
+  akSeen : List Ack.Spec.Blk := []
+  akSack : Bool := true          -- SACK blocks are taken into account
+  akSpec : Bool := true          -- the acknowledgements so far are what a receiver emits
 deriving Repr
 
 structure RConn where
@@ -109,7 +135,7 @@ structure Decl where
 deriving Repr
 
 structure Oracle where
-  cfg : Cfg := ⟨false, 512, 3145728, 300000000, true⟩
+  cfg : Cfg := { attach := false, maxChunks := 512, maxBytes := 3145728, keepAlive := 300000000, acl := true }
   decls : List Decl := []
   conns : List RConn := []
   monotone : Bool := true
@@ -147,13 +173,13 @@ def fnv64 (bs : Bytes) : Nat :=
   (bs.foldl (fun (h : UInt64) b => (h ^^^ b.toUInt64) * 1099511628211) 14695981039346656037).toNat
 
 def isTimeout : ObsEv → Bool
-  | .term _ .timeout _ _ => true
+  | .term _ .timeout _ _ _ => true
   | _ => false
 
 /-- rank of an event kind in the order a single packet can produce them -/
 def evRank : ObsEv → Nat
   | .new _ _ => 0 | .ooo _ _ => 1 | .data _ _ _ _ => 1 | .closed _ => 2
-  | .term _ .timeout _ _ => 4 | .term _ _ _ _ => 3
+  | .term _ .timeout _ _ _ => 4 | .term _ _ _ _ _ => 3 | .exc _ => 5
 
 def ranksSorted : List Nat → Bool
   | a :: b :: r => decide (a ≤ b) && ranksSorted (b :: r)
@@ -222,6 +248,48 @@ def checkDeliver (acl : Bool) (d d' : RDir) (decl : Option Decl) (evs : List (Na
         else none
     | _ => some "more than one data callback for one packet"
 
+/-- SACK blocks of a segment as absolute half-open blocks, read forward from the segment's own (absolute) ACK;
+    a trailing odd edge is no block -/
+def blocksAbs (A : Nat) : List Nat → List Ack.Spec.Blk
+  | l :: r :: rest => let la := Ack.Spec.unwrapFwd A l; (la, la + sub32 r l) :: blocksAbs A rest
+  | _ => []
+
+/-- the acknowledgement side of a packet travelling in direction `d` -/
+def RDir.advanceAck (d : RDir) (p : Pkt) : RDir :=
+  if !d.akSpec then d else
+  match d.akPhase with
+  | 0 => if p.syn && !p.fin && !p.rst then { d with akPhase := 1 } else { d with akSpec := false }
+  | 1 =>
+    if p.fin || p.rst then { d with akSpec := false }
+    else if !p.ackf then d
+    else
+      -- the handshake of this direction is complete: knowledge starts here (the value of the ACK number is its own image)
+      let bl := match p.sack with | .edges e => blocksAbs p.ack e | _ => []
+      let k : Ack.Spec.Pkt := ⟨p.ack, bl⟩
+      if Ack.Spec.pktOK p.ack [] k then { d with akPhase := 2, akA := p.ack, akSeen := bl, akSack := true }
+      else { d with akSpec := false }
+  | _ =>
+    if !p.ackf then { d with akSpec := false } else
+    let a := Ack.Spec.unwrapFwd d.akA p.ack
+    let bl := match p.sack with | .edges e => blocksAbs a e | _ => []
+    let k : Ack.Spec.Pkt := ⟨a, bl⟩
+    if Ack.Spec.pktOK d.akA d.akSeen k then { d with akA := a, akSeen := if d.akSack then d.akSeen ++ bl else d.akSeen }
+    else { d with akSpec := false }
+
+/-- judge what a flow shows of its ACK tracker against the direction's reference -/
+def ackVerdict (tracking : Bool) (d : RDir) (a : ObsAck) : Option String :=
+  if a.tracking != tracking then some "ack_tracking_enabled differs from what the application asked for" else
+  if !tracking then
+    if a.ivn != 0 then some "a flow without ACK tracking recorded SACKed intervals" else none
+  else if !d.akSpec || d.akPhase != 2 then none
+  else match a.ivs with
+    | none => none
+    | some ivs =>
+      if ivs.length != a.ivn then some "interval count differs from the intervals shown" else
+      if ivs.length > 48 then none else
+      let v := Ack.Spec.stateVerdict d.akA d.akSeen a.ack ivs
+      if v == "" then none else some v
+
 /-- the idle sweep: judge the TIMEOUT terminations reported after a packet at time `ts` -/
 def Oracle.sweep (o : Oracle) (twin : Bool) (ts : Nat) (evs : List ObsEv) : Oracle × Verdict :=
   match evs with
@@ -231,7 +299,7 @@ def Oracle.sweep (o : Oracle) (twin : Bool) (ts : Nat) (evs : List ObsEv) : Orac
     else (o, .ok)
   | e :: r =>
     match e with
-    | .term sid _ _ _ =>
+    | .term sid _ _ _ _ =>
       match o.conns.find? (fun c => c.sid == sid) with
       | none => viol o twin "timeout" "time-out reported for a connection that is not live"
       | some c =>
@@ -255,6 +323,24 @@ def Oracle.packet (o : Oracle) (p : Pkt) (evs : List ObsEv) (st : Option ObsStat
   let live := o.conns.find? (·.has p.v6 src dst)
   let isSyn := p.syn && !p.ackf
   let create := live.isNone && (isSyn || (o.cfg.attach && p.payload.isSome))
+  -- no new-stream callback installed: the packet that would start a connection makes `callback_not_set` leave the call,
+  -- after the stream has been stored; nothing else happens (the packet is not processed, no sweep)
+  if !o.cfg.cbSet && create then
+    if evs != [ObsEv.exc "callback_not_set"] then
+      viol o twin "exception" "no new-stream callback is installed and the packet starts a connection: callback_not_set expected, alone"
+    else match st with
+      | none => viol o twin "find" "the stream stored before callback_not_set was thrown is not found"
+      | some s =>
+        if s.sid != ⟨p.v6, p.src, p.sport, p.dst, p.dport⟩ then viol o twin "find" "find_stream returns another connection" else
+        ({ o with conns := { v6 := p.v6, cl := src, sv := dst, lastSeen := p.ts, c2s := { specified := false, akSpec := false },
+                             s2c := { specified := false, akSpec := false } } ::
+                           o.conns.filter (fun c => !c.has p.v6 src dst) }, .ok)
+  else
+  match evs.find? (fun e => match e with | .exc _ => true | _ => false) with
+  | some (.exc n) => viol o twin "exception" s!"{n} left process_packet"
+  | _ =>
+  if !o.cfg.cbSet && main.any (fun e => match e with | .term _ _ _ _ _ => false | _ => true) then
+    viol o twin "exception" "a stream callback was made although no new-stream callback (which installs them) is set" else
   let news := main.filter (fun e => match e with | .new _ _ => true | _ => false)
   let expectNew := if create then [ObsEv.new ⟨p.v6, p.src, p.sport, p.dst, p.dport⟩ (!p.syn)] else []
   if news != expectNew then
@@ -265,9 +351,12 @@ def Oracle.packet (o : Oracle) (p : Pkt) (evs : List ObsEv) (st : Option ObsStat
     | some c => some c
     | none =>
       if create then
+        -- in recovery mode a flow gives up holes on purpose: the deliver clause does not apply (correspondence only)
+        let sp := o.cfg.recovery.isNone
         some { v6 := p.v6, cl := src, sv := dst, lastSeen := p.ts,
-               c2s := if isSyn then {} else { base := some p.dataSeq },
-               s2c := if isSyn then {} else { base := some p.ack } }
+               -- attached mid-stream: both trackers are default-constructed (ACK number 0, SACK only after use_sack)
+               c2s := if isSyn then { specified := sp } else { base := some p.dataSeq, akPhase := 2, akSack := o.cfg.useSack, specified := sp },
+               s2c := if isSyn then { specified := sp } else { base := some p.ack, akPhase := 2, akSack := o.cfg.useSack, specified := sp } }
       else none
   let rest := main.filter (fun e => match e with | .new _ _ => false | _ => true)
   match conn? with
@@ -283,14 +372,18 @@ def Oracle.packet (o : Oracle) (p : Pkt) (evs : List ObsEv) (st : Option ObsStat
       | .data s cl _ _ => s != sid || cl != toServer
       | .ooo s cl => s != sid || cl != toServer
       | .closed s => s != sid
-      | .term s _ _ _ => s != sid
-      | .new _ _ => false)
+      | .term s _ _ _ _ => s != sid
+      | .new _ _ => false
+      | .exc _ => false)
     if misrouted then viol o twin "route" "callback for another connection or direction" else
     let decl := lookupDecl o.decls p.v6 src dst
     let d := if toServer then c.c2s else c.s2c
-    let d' := d.advance p decl
+    let ignored := o.cfg.cbSet && (if toServer then o.cfg.ignC else o.cfg.ignS)
+    let d' := (d.advance p decl).advanceAck p
     let dataEvs := rest.filterMap (fun e => match e with | .data _ _ l h => some (l, h) | _ => none)
-    match checkDeliver o.cfg.acl d d' decl dataEvs with
+    if ignored && !(dataEvs.isEmpty && !rest.any (fun e => match e with | .ooo _ _ => true | _ => false)) then
+      viol o twin "ignore" "data / out-of-order callback for a direction the application asked to ignore" else
+    match (if ignored || !o.cfg.cbSet then none else checkDeliver o.cfg.acl d d' decl dataEvs) with
     | some msg => viol o twin "deliver" msg
     | none =>
     let d'' : RDir := match d'.owed decl with
@@ -300,17 +393,22 @@ def Oracle.packet (o : Oracle) (p : Pkt) (evs : List ObsEv) (st : Option ObsStat
     -- forget
     let finished := (c'.c2s.fin && c'.s2c.fin) || c'.c2s.rst || c'.s2c.rst
     let closedEvs := rest.filter (fun e => match e with | .closed _ => true | _ => false)
-    if closedEvs != (if finished then [ObsEv.closed sid] else []) then
+    if closedEvs != (if finished && o.cfg.cbSet then [ObsEv.closed sid] else []) then
       viol o twin "forget" (if finished then "connection finished (FIN both ways or RST) but not reported closed"
                             else "closed callback for a connection that is not finished") else
     -- limits
-    let terms := rest.filterMap (fun e => match e with | .term _ r ch b => some (r, ch, b) | _ => none)
+    let terms := rest.filterMap (fun e => match e with | .term _ r ch b sk => some (r, ch, b, sk) | _ => none)
     match terms with
     | _ :: _ :: _ => viol o twin "limits" "terminated twice"
-    | [(r, ch, b)] =>
-      if r != .bufferedData then viol o twin "limits" "termination reason is not BUFFERED_DATA" else
-      if !(decide (ch > o.cfg.maxChunks) || decide (b > o.cfg.maxBytes)) then
+    | [(r, ch, b, sk)] =>
+      let overBuf := decide (ch > o.cfg.maxChunks) || decide (b > o.cfg.maxBytes)
+      if r == .timeout then viol o twin "limits" "unexpected reason" else
+      if r == .bufferedData && !overBuf then
         viol o twin "limits" s!"terminated with {ch} chunks / {b} bytes buffered, within the limits" else
+      if r == .sackedSegments && overBuf then
+        viol o twin "sacklimit" s!"SACKED_SEGMENTS reported with {ch} chunks / {b} bytes buffered, over the buffering limits" else
+      if r == .sackedSegments && !decide (sk > o.cfg.maxSacked) then
+        viol o twin "sacklimit" s!"terminated with {sk} SACKed intervals, within the limit" else
       if st.isSome then viol o twin "forget" "terminated connection is still found" else
       Oracle.sweep { o with conns := others } twin p.ts sweep
     | [] =>
@@ -325,6 +423,12 @@ def Oracle.packet (o : Oracle) (p : Pkt) (evs : List ObsEv) (st : Option ObsStat
           if s.cch + s.sch > o.cfg.maxChunks || s.cb + s.sb > o.cfg.maxBytes then
             viol o twin "limits" s!"live connection holds {s.cch + s.sch} chunks / {s.cb + s.sb} bytes, over the limits" else
           if s.real != s.cb + s.sb then viol o twin "limits" "byte counter differs from the bytes held" else
+          if s.cak.ivn + s.sak.ivn > o.cfg.maxSacked then
+            viol o twin "sacklimit" s!"live connection holds {s.cak.ivn + s.sak.ivn} SACKed intervals, over the limit" else
+          match ackVerdict (o.cfg.ackC && o.cfg.cbSet) c'.c2s s.cak, ackVerdict (o.cfg.ackS && o.cfg.cbSet) c'.s2c s.sak with
+          | some m, _ => viol o twin "acktrack" ("client flow: " ++ m)
+          | none, some m => viol o twin "acktrack" ("server flow: " ++ m)
+          | none, none =>
           Oracle.sweep { o with conns := c' :: others } twin p.ts sweep
 
 /-- judge a `find_stream` result -/
